@@ -524,7 +524,12 @@ def r_reply_forms(ctx: Ctx, rule: str):
                 want = "str" if is_getter else "ok-or-str"
                 ok = form == want or (is_getter and form == "ok-or-str")
                 rep.ob(rule + "r", f"the reply has the form {'str(result)' if is_getter else 'ok if result is None else str(result)'}", ok, node=c, detail=f"written: {ast.unparse(arg)[:80]} ({form})")
-    rep.floor(rule + "r", "return_or_exception call sites", n, 3)
+    direct = 0
+    for fn in [x for x in ctx.prog.all_functions() if x.module.name == SESSION_MOD]:
+        for u in ctx.distinct_sites(ctx.nodes(fn, lambda n: n.op == "call" and n.callee is not None and n.callee.kind == "user")):
+            direct += 1
+            rep.ob(rule + "r", "every pool member is invoked through return_or_exception (so that an exception it raises becomes the reply)", False, node=u)
+    rep.floor(rule + "r", "invocations of pool members (through return_or_exception or direct)", n + direct, 3)
 
 
 def reply_form(arg: ast.AST, var: Optional[str], aw: Optional[ast.AST]) -> str:
@@ -792,7 +797,8 @@ def r_surface(ctx: Ctx, rule: str):
             tests = [t for t in ctx.nodes(f, lambda n: n.op == "test" and ast.unparse(n.ast).replace(" ", "") == f"isinstance({mv},property)")]
             ok = bool(tests) and c not in reach([g.entry], avoid=set(tests)) and isinstance(c.ast.args[0], ast.Name) and c.ast.args[0].id == mv
             rep.ob(rule, "properties become property commands", ok, node=c)
-        rep.floor(rule, "function/property command adders", min(len(fc), len(pc)), 1)
+        rep.ob(rule, "public methods of the pool class are turned into commands", bool(fc), func=f, construct=fc[0] if fc else "(add_function_command is never called)")
+        rep.ob(rule, "public properties of the pool class are turned into commands", bool(pc), func=f, construct=pc[0] if pc else "(add_property_command is never called)")
         sd = ctx.distinct_sites(ctx.nodes(f, lambda n: n.op == "call" and isinstance(n.ast.func, ast.Attribute) and n.ast.func.attr == "set_defaults"))
         for s in sd:
             t = ast.unparse(s.ast).replace(" ", "")
